@@ -151,6 +151,23 @@ func (m *Model) debit(h uint32, kind, owner, addr string, t int, amt uint64, ref
 	m.Events = append(m.Events, Event{h, kind, addr, t, -int64(amt), owner, ref})
 }
 
+// watch records that the rule owned by owner decided that (addr, t) must NOT change in this block
+// (a refused or unconvertible held conversion): a zero-delta event, so that a disagreement on
+// that balance is attributed to the rule that forbade the change.
+func (m *Model) watch(h uint32, owner, addr string, t int, ref string) {
+	m.Events = append(m.Events, Event{h, "conv-refused", addr, t, 0, owner, ref})
+}
+
+func (m *Model) watchBatch(h uint32, owner string, txs []PTx, ref string) {
+	for _, tx := range txs {
+		a := hexAddr(tx.From)
+		m.watch(h, owner, a, tx.Asset, ref)
+		if tx.IsConv() {
+			m.watch(h, owner, a, tx.Conv, ref)
+		}
+	}
+}
+
 // Supply returns Σ balances per ticker.
 func (m *Model) Supply() Bal {
 	var s Bal
@@ -370,7 +387,16 @@ func (m *Model) Step(blk *Block, obs Observer) {
 		blk = &Block{Height: h}
 	}
 
-	// 1. one-time adjustments, before anything else (S: C15)
+	// 1. one-time adjustments, before anything else (S: C15). At these heights every balance of the
+	// special addresses is C15's business: whatever the adjustment does not name must stay as it is.
+	if h == e.V20Dev || h == e.V202 || h == e.V204 || h == e.V204Burn {
+		for _, sp := range []string{GlobalOldBurnAddress, GlobalBurnAddress, GlobalMintAddress} {
+			a := AddrHexOf(sp)
+			for t := 1; t < NT; t++ {
+				m.Events = append(m.Events, Event{h, "special-watch", a, t, 0, "C15", ""})
+			}
+		}
+	}
 	if h == e.V20Dev {
 		m.zeroAddress(h, AddrHexOf(pickBurn(h, e)), "zero-old-burn")
 	}
@@ -565,6 +591,11 @@ func (m *Model) Step(blk *Block, obs Observer) {
 				amt *= 144
 			}
 			m.credit(h, "dev-reward", "C15", AddrHexOf(d.Addr), TPEG, amt, "")
+			for t := 1; t < NT; t++ {
+				if t != TPEG {
+					m.Events = append(m.Events, Event{h, "special-watch", AddrHexOf(d.Addr), t, 0, "C15", ""})
+				}
+			}
 		}
 		m.Flags["dev-payout"]++
 	}
@@ -938,6 +969,7 @@ func (m *Model) executeHolding(h uint32, obs Observer) {
 				if bad {
 					rec.Status = CodeInvalid
 					m.Flags["reject-peg-dest"]++
+					m.watchBatch(h, "C13", hb.txs, hb.hash)
 					continue
 				}
 			}
@@ -965,11 +997,17 @@ func (m *Model) executeHolding(h uint32, obs Observer) {
 			if noEffect {
 				rec.NoEffect = true
 				m.Flags["unconvertible"]++
+				m.watchBatch(h, "C13", hb.txs, hb.hash) // no rate / no average: must not be converted
 				continue
 			}
 			if code != 0 {
 				rec.Status = int64(code)
 				m.Flags[fmt.Sprintf("reject%d", code)]++
+				if code == CodeInsufficient {
+					m.watchBatch(h, "C03", hb.txs, hb.hash)
+				} else {
+					m.watchBatch(h, "C13", hb.txs, hb.hash)
+				}
 				continue
 			}
 			// execute
